@@ -123,3 +123,88 @@ func genSessionLocks(sb *strings.Builder) error {
 	fmt.Fprintf(sb, "Definition seq_check_locked : bool := %v.\nDefinition timeseq_check_locked : bool := %v.\n\n", locked["SequenceHandler.Check"], locked["TimeSequenceHandler.Check"])
 	return nil
 }
+
+func init() {
+	genSections = append(genSections, genTableLocks)
+}
+
+// lockedFromLock: the method takes the write lock exactly once, at the top level of its body,
+// immediately followed by the deferred unlock, touches the entry slice only after that point, and
+// contains no other lock or unlock call: from the lock on, the rest of the body is one critical
+// section.
+func lockedFromLock(fn *ast.FuncDecl) bool {
+	if fn.Body == nil {
+		return false
+	}
+	isLockSel := func(e ast.Expr, name string) bool {
+		call, ok := e.(*ast.CallExpr)
+		if !ok {
+			return false
+		}
+		sel, ok := call.Fun.(*ast.SelectorExpr)
+		if !ok || sel.Sel.Name != name {
+			return false
+		}
+		inner, ok := sel.X.(*ast.SelectorExpr)
+		return ok && inner.Sel.Name == "lock"
+	}
+	at := -1
+	for i, st := range fn.Body.List {
+		if es, ok := st.(*ast.ExprStmt); ok && isLockSel(es.X, "Lock") {
+			at = i
+			break
+		}
+	}
+	if at < 0 || at+1 >= len(fn.Body.List) {
+		return false
+	}
+	if ds, ok := fn.Body.List[at+1].(*ast.DeferStmt); !ok || !isLockSel(ds.Call, "Unlock") {
+		return false
+	}
+	calls := map[string]int{}
+	ast.Inspect(fn.Body, func(n ast.Node) bool {
+		if c, ok := n.(*ast.CallExpr); ok {
+			for _, nm := range []string{"Lock", "Unlock", "RLock", "RUnlock", "TryLock"} {
+				if isLockSel(c, nm) {
+					calls[nm]++
+				}
+			}
+		}
+		return true
+	})
+	if calls["Lock"] != 1 || calls["Unlock"] != 1 || calls["RLock"]+calls["RUnlock"]+calls["TryLock"] != 0 {
+		return false
+	}
+	touches := false
+	for _, st := range fn.Body.List[:at] {
+		ast.Inspect(st, func(n ast.Node) bool {
+			if s, ok := n.(*ast.SelectorExpr); ok && s.Sel.Name == "entries" {
+				touches = true
+			}
+			return true
+		})
+	}
+	return !touches
+}
+
+// genTableLocks: every mutating operation of the routing table is one critical section, so that
+// concurrent callers (announcement handlers, link removal, the cleaning worker) produce one of
+// the operation sequences the history model ranges over.
+func genTableLocks(sb *strings.Builder) error {
+	fset := token.NewFileSet()
+	f, err := parser.ParseFile(fset, "/repo/m/table.go", nil, 0)
+	if err != nil {
+		return err
+	}
+	ok := map[string]bool{}
+	for _, d := range f.Decls {
+		fd, isFn := d.(*ast.FuncDecl)
+		if !isFn || fd.Recv == nil {
+			continue
+		}
+		ok[fd.Name.Name] = lockedFromLock(fd)
+	}
+	sb.WriteString("(* the routing table's mutating operations are one critical section each (go/ast) *)\n")
+	fmt.Fprintf(sb, "Definition table_ops_serialised : bool := %v.\n\n", ok["AddRoute"] && ok["RemoveNextHop"] && ok["RemoveDisconnected"] && ok["Clean"])
+	return nil
+}
